@@ -66,9 +66,9 @@ PROPS = {
               "stored value (a stored None is served); no operation keeps an options-dependent result on a shared object."
               " The implementation dataset of an overload carries nothing of its parent (effects would run twice); no part of an evaluation runs on a thread of the library's making."
               " Template.keys asks its parameters for keys(), not explain() (effect-only keys would split entries); leaving a handler context restores the runtime its entry saved (a cache.disabled() runtime that stays installed after a re-entrant use makes every later evaluation miss)."
-              " A dataset rebuilt from the parts of another through the factory carries its cache (a copy without it is a second memo for the same body)." " A dataset is never duplicated by copying the object (a shallow copy shares the effects list: an effect added to one dataset then runs after the other's body as well).",
+              " A dataset rebuilt from the parts of another through the factory carries its cache (a copy without it is a second memo for the same body)." " A dataset is never duplicated by copying the object (a shallow copy shares the effects list: an effect added to one dataset then runs after the other's body as well)." " (Round 10) A dataset keeps its own copy of the effects list it is built with: shared with its derived variants, an effect added to one fires for all, more than once per body execution (R-CC).",
               "the number of body executions for concrete DAGs, sharing inside one evaluation, behaviour of over-wide key sets",
-              filters={"R-ON": ["labrea.dataset"], "R-CC": ["dataset(...) rebuilt"], "R-TK": ["Template.keys"], "R-RE": ["Runtime.__exit__", "Runtime.__enter__"], "R-AI": ["starts no threads"], "R-PO": ["WithOptions"], "R-EO": ["Computation", "CallbackEffect", "ChainedEffect"], "R-OA": ["WithOptions", "Cached", "Dataset"],
+              filters={"R-ON": ["labrea.dataset"], "R-CC": ["dataset(...) rebuilt", "keeps a copy of the effects list"], "R-TK": ["Template.keys"], "R-RE": ["Runtime.__exit__", "Runtime.__enter__"], "R-AI": ["starts no threads"], "R-PO": ["WithOptions"], "R-EO": ["Computation", "CallbackEffect", "ChainedEffect"], "R-OA": ["WithOptions", "Cached", "Dataset"],
                        "R-MC": ["MemoryCache"], "R-CW": ["Dataset.overload", "carries nothing"]}),
     "C03": _p(["R-PO", "R-FP", "R-KC", "R-DK", "R-RK", "R-MF", "R-WI", "R-OP", "R-SO", "R-OA", "R-AI", "R-HK", "R-HD", "R-KB", "R-KU", "R-RE", "R-LM"],
               "Decides: every component of every keys() result is a child's keys, an empty set, a literal key guarded by "
